@@ -99,7 +99,9 @@ var shapes = []shape{
 	{"unicode-string", false, func(n int) ([]any, string) {
 		s := text(n/2, 2) + "✓é" + text(n-n/2, 3)
 		return []any{s, 7}, digest([]byte(s), []byte("7"))
-	}, func(rec func(string)) any { return func(s string, k int) { rec(digest([]byte(s), []byte(fmt.Sprint(k)))) } }},
+	}, func(rec func(string)) any {
+		return func(s string, k int) { rec(digest([]byte(s), []byte(fmt.Sprint(k)))) }
+	}},
 	{"binary", true, func(n int) ([]any, string) { b := fill(n, 4); return []any{sio.Binary(b)}, digest(b) },
 		func(rec func(string)) any { return func(b sio.Binary) { rec(digest(b)) } }},
 	{"two-binaries", true, func(n int) ([]any, string) {
@@ -216,16 +218,16 @@ func registerAll(s registrar, r *recorder) {
 }
 
 type pair struct {
-	ts       *httptest.Server
-	srv      *sio.Server
-	mgrs     []*sio.Manager
-	socks    []sio.ClientSocket
-	ssocks   []sio.ServerSocket
-	srvRec   *recorder
-	cliRecs  []*recorder
-	dead     bool
-	downs    int
-	mu       sync.Mutex
+	ts      *httptest.Server
+	srv     *sio.Server
+	mgrs    []*sio.Manager
+	socks   []sio.ClientSocket
+	ssocks  []sio.ServerSocket
+	srvRec  *recorder
+	cliRecs []*recorder
+	dead    bool
+	downs   int
+	mu      sync.Mutex
 }
 
 func (p *pair) close() {
